@@ -276,21 +276,30 @@ Definition wx0 : list Qc := qvec [0; 0; 0]%Q.
 Definition wCe : covform := CVector (qvec [1 # 2; 2]%Q).
 Definition wCx : covform := CMatrix (qmat [[1; 0; 0]; [0; 2; 0]; [0; 0; 4]]%Q).
 
+Ltac qcl_neq := let E := fresh in intros E; apply (f_equal (map this)) in E; vm_compute in E; discriminate.
+Ltac qcl_eq := apply qcl_eqb_eq; vm_compute; reflexivity.
+
 Lemma vector_noise_witness :
-  map_direct false 2 3 wA wb wx0 (Some wCe) (Some wCx) = Val (qvec [2 # 7; 4 # 7; -8 # 7]%Q) /\
-  post_mean_exact 2 3 wA wb wx0 wCe wCx = Some (qvec [1 # 5; 7 # 20; -9 # 10]%Q) /\
-  map_direct true 2 3 wA wb wx0 (Some wCe) (Some wCx) = Val (qvec [1 # 5; 7 # 20; -9 # 10]%Q).
-Proof. vm_compute. repeat split; reflexivity. Qed.
+  exists x y, map_direct false 2 3 wA wb wx0 (Some wCe) (Some wCx) = Val x /\
+              post_mean_exact 2 3 wA wb wx0 wCe wCx = Some y /\ x <> y /\
+              map_direct true 2 3 wA wb wx0 (Some wCe) (Some wCx) = Val y.
+Proof.
+  eexists. eexists. split; [vm_compute; reflexivity|]. split; [vm_compute; reflexivity|]. split; [qcl_neq|].
+  vm_compute. f_equal. qcl_eq.
+Qed.
 
 Definition vA : list (list Qc) := qmat [[1; 2]; [0; 1]]%Q.
 Definition vCe : covform := CMatrix (qmat [[1 # 2; 0]; [0; 2]]%Q).
 Definition vCx : covform := CVector (qvec [1; 2]%Q).
 
 Lemma vector_prior_witness :
-  map_direct false 2 2 vA wb (qvec [0; 0]%Q) (Some vCe) (Some vCx) = Val (qvec [-7 # 20; -7 # 20]%Q) /\
-  post_mean_exact 2 2 vA wb (qvec [0; 0]%Q) vCe vCx = Some (qvec [4 # 11; 5 # 22]%Q) /\
-  map_direct true 2 2 vA wb (qvec [0; 0]%Q) (Some vCe) (Some vCx) = Val (qvec [4 # 11; 5 # 22]%Q).
-Proof. vm_compute. repeat split; reflexivity. Qed.
+  exists x y, map_direct false 2 2 vA wb (qvec [0; 0]%Q) (Some vCe) (Some vCx) = Val x /\
+              post_mean_exact 2 2 vA wb (qvec [0; 0]%Q) vCe vCx = Some y /\ x <> y /\
+              map_direct true 2 2 vA wb (qvec [0; 0]%Q) (Some vCe) (Some vCx) = Val y.
+Proof.
+  eexists. eexists. split; [vm_compute; reflexivity|]. split; [vm_compute; reflexivity|]. split; [qcl_neq|].
+  vm_compute. f_equal. qcl_eq.
+Qed.
 
 (* non-vacuity of the hypotheses of the Closed section on a concrete problem *)
 Definition eCe : list (list Qc) := qmat [[2; 1]; [1; 3 # 2]]%Q.
@@ -299,4 +308,7 @@ Lemma closed_example :
   exists x Pe Px, map_core 2 3 wA wb (qvec [1; 0; -1]%Q) (NMat eCe) (NMat eCx) = Val x /\
     qinv eCe = Some Pe /\ qinv eCx = Some Px /\
     post_grad 3 wA Pe Px wb (qvec [1; 0; -1]%Q) x = qvzero 3.
-Proof. eexists. eexists. eexists. vm_compute. repeat split; reflexivity. Qed.
+Proof.
+  eexists. eexists. eexists. split; [vm_compute; reflexivity|]. split; [vm_compute; reflexivity|].
+  split; [vm_compute; reflexivity|]. qcl_eq.
+Qed.
